@@ -1,8 +1,10 @@
 package core
 
 import (
+	"fmt"
 	"math/rand"
 	"sort"
+	"strings"
 
 	"github.com/junioryono/godi/v4"
 	"github.com/junioryono/godi/v4/verifh/pool"
@@ -61,6 +63,7 @@ var specialNames = []string{
 	"BIpos_K0", "BIin_K1", "BIpos_K2", "BIin_K3", "BIpos_S0", "BIin_S4", "BIpos_S5", "BIin_S5", "BIdep_S6", "BIkeyedOpt_S7",
 	"Twice_K0", "Twice_S4", "TwiceIn_K2", "InIgn_K0", "InIgn_S4", "RetI_K0", "RetI_K1", "NewDec0", "NewDec1", "NewDec2",
 	"InEmb_K0", "InEmb_S4", "InEmb_K2", "InEmb_S5",
+	"InSp_K0", "InGG_K0", "InSG_K0", "InNG_K0", "InNG_S4", "InKK_K0", "InKU_K0", "InUK_K2", "InAnon_K0", "InAnon_S4", "InAnon_K2",
 }
 
 var outGroupNames = []string{"OutG_K0K1", "OutGG_K0"}
@@ -362,6 +365,29 @@ func appendRemoves(rng *rand.Rand, s *Spec, used map[int]bool, lifes []godi.Life
 			}
 			if typeIndex[concrete] == 0 && concrete != pool.TypeNames[0] {
 				continue // decoys have no spare constructors
+			}
+			// a third of the time, when the removed identity came from an Add call with several
+			// outputs: the replacement depends on one of the outputs that stay (the set stays
+			// acyclic; whatever the container shares between the outputs of one Add call must
+			// not tie the replacement to them)
+			if reg := m.Regs[m.Services[ik].Reg]; len(reg.Idents) > 1 && len(as) == 0 && strings.HasPrefix(concrete, "K") && rng.Intn(3) == 0 {
+				done := false
+				for _, sib := range reg.Idents {
+					if sib == ik || sib.Key != "" || !strings.HasPrefix(sib.Type, "K") || sib.Type == concrete {
+						continue
+					}
+					meta := pool.ByName(fmt.Sprintf("PosA_%d_%d", typeIndex[concrete], 1<<typeIndex[sib.Type]))
+					if meta == nil || used[meta.ID] {
+						continue
+					}
+					used[meta.ID] = true
+					s.Regs = append(s.Regs, Reg{Ctor: meta.ID, Life: reg.Life, Name: ik.Key, Tail: true})
+					done = true
+					break
+				}
+				if done {
+					continue
+				}
 			}
 			for _, suffix := range []string{"_a", "_b", "_c"} {
 				meta := pool.ByName("Leaf_" + concrete + suffix)
